@@ -35,11 +35,14 @@ VALID_ARGS = [
     ["L", [T("x"), ["N", 2]]], ["TU", [T("t"), ["N", 3]]],
     ["DUP", [T("d"), ["N", 6]]], ["NS", "-0.0"], ["N", 1.0], ["N", 0.0],
     ["NT", [T("n1"), ["N", 8]]], ["LSUB", [T("ls"), ["NONE"]]], ["TLSUB", [T("tls"), ["N", 9]]], ["TS", "subtext"],
+    ["NS", "floatsub-repr"], ["NS", "intenum-tagify"],
 ]
 INVALID_ARGS = [
     ["OBJ"], ["DICT"], ["SET"], ["BYTES"],
     ["PY", [T("ok"), ["OBJ"]]], ["PY", [T("ok"), ["PY", [T("k2"), ["TU", [["OBJ"]]]]]]],
     ["TU", [["DICT"], T("late")]], ["FRAC"], ["DEC"], ["PY", [T("ok"), ["FRAC"]]],
+    ["NOTAG"], ["NOREPR"], ["FALSY", "bytes0"], ["PY", [["FALSY", "dict0"], T("after-falsy")]], ["FALSY", "dec0"],
+    ["PY", [T("ok"), ["FALSY", "set0"]]], ["FALSY", "complex0"], ["TU", [["FALSY", "frac0"]]], ["FALSY", "bytearray0"],
 ]
 RED_VALID = [T("s"), ["N", 1], ["NONE"], H("<b>"), I([T("k")]),
              ["PY", [T("a"), ["PY", [["N", 1], ["NONE"], ["TU", [T("b")]]]]]],
@@ -58,7 +61,7 @@ def mk_ops(valid, invalid, full):
     ops.append(["append2", valid[0], invalid[0]])
     ops.append(["append2", invalid[0], valid[0]])
     # extend / + operands: iterables, strings, and non-iterables (outcome choice)
-    operands = [a for a in args if a[0] not in ("DICT", "SET", "BYTES")]
+    operands = [a for a in args if a[0] not in ("DICT", "SET", "BYTES", "FALSY")]
     for a in operands:
         ops.append(["extend", a])
     ops.append(["extend", ["GEN", [T("g"), ["N", 4], ["PY", [["NONE"], T("h")]]]]])
